@@ -179,6 +179,12 @@ def evaluate(rp, rng=None):
         out2 = psd_fn(obs, mask * 7.5, **kw)
         if np.abs(out2 - out).max() > 1e-9 * scale:
             return 'normalised PSD changes under positive rescaling of the mask', 'psd:scale', None, None
+    # the result depends on the VALUES only: other memory layouts of the same values, and a second call on the same
+    # buffers after an in-place refresh, give the same PSD
+    f = core.container_variants(lambda o_, m_: psd_fn(o_, m_, **kw), [obs, mask], out,
+                                lambda r, e: np.shape(r) == np.shape(e) and np.abs(np.asarray(r) - e).max() <= 1e-9 * scale)
+    if f:
+        return 'get_power_spectral_density_matrix: ' + f, 'psd:container', None, None
     return None, None, _coq(x, mc, oc, normalize, lead, K, D, Tn, rng), None
 
 
@@ -246,6 +252,10 @@ def evaluate_cond(rp, rng=None):
     ev = np.linalg.eigvalsh((out + np.conj(np.swapaxes(out, -1, -2))) / 2)
     if ev.min() < -1e-9 * scale:
         return 'not PSD', 'cond:psd', None, None
+    f = core.container_variants(lambda A_: condition_covariance(A_, gamma), [A], out,
+                                lambda r, e: np.shape(r) == np.shape(e) and np.abs(np.asarray(r) - e).max() <= 1e-9 * scale)
+    if f:
+        return 'condition_covariance: ' + f, 'cond:container', None, None
     lead = A.shape[:-2]
     idxs = list(np.ndindex(*lead))[:2]
     parts = ['check_condition_cov %d %s %s %s' % (D, core.cmat(A[i]), core.fhex(gamma), core.clist(out[i].reshape(-1)))
